@@ -274,7 +274,7 @@ void watchdog_stop();
 void suspend_gate();                   // background helpers (keeper) block here, without timeouts, while the watchdog is deciding
 
 // ------------------------------------------------------------------------------------------------ misc
-std::string stacks_dump(int frames = 12, size_t max_bytes = 9000);   // gdb -batch back-traces of all threads of this process (witness for hang verdicts)
+std::string stacks_dump(int frames = 30, size_t max_bytes = 16000);   // gdb -batch back-traces of all threads of this process (witness for hang verdicts)
 void set_crash_context(const std::string& what);   // printed on a fatal signal so that the driver can key the crash by scenario kind
 void pin_process_to_cpus(int ncpus);   // restrict the whole process (call before threads are created)
 int gettid_();
